@@ -28,7 +28,7 @@ SeqsFrom(S, lo, hi) == UNION {[1..k -> S] : k \in lo..hi}
 
 A(name, n, t, i, seq, before, after, key, rev) ==
     [name |-> name, n |-> n, t |-> t, i |-> i, seq |-> seq, before |-> before, after |-> after,
-     key |-> key, rev |-> rev]
+     key |-> key, rev |-> rev, via |-> 0]
 
 IdPool == {IdOf[t] : t \in Task} \cup {99}
 
@@ -58,6 +58,11 @@ Ops3 ==
     \cup {A(nm, n, 0, 0, s, 0, 0, 0, 0) : nm \in {"ListLShift", "ListRShift"}, n \in Node,
                                            s \in SeqsFrom(Task, 1, 1)}
     \cup {A("SetChildrenOne", n, t, 0, <<>>, 0, 0, 0, 0) : n \in Node, t \in Task}
+    \cup {A("SetChildrenFrom", n, m, 0, <<>>, 0, 0, 1, 0) : n \in Node, m \in Node}
+    \cup {A("SetChildrenFrom", n, m, 0, <<>>, 0, 0, 2, 0) : n \in Node, m \in Task}
+    \cup {A("SetPredsFrom", n, m, 0, <<>>, 0, 0, 1, 0) : n \in Task, m \in Node}
+    \cup {A("SetPredsFrom", n, m, 0, <<>>, 0, 0, 2, 0) : n \in Task, m \in Task}
+    \cup {A("SetSuccsFrom", n, m, 0, <<>>, 0, 0, k, 0) : n \in Task, m \in Task, k \in 2..3}
 
 Actions == Core1 \cup (IF LEVEL >= 2 THEN Facade2 ELSE {}) \cup (IF LEVEL >= 3 THEN Ops3 ELSE {})
 
